@@ -6,6 +6,7 @@ var redirectTable = map[string]string{
 	"net/textproto.NewConn":                           "ModelTextprotoNewConn",
 	"(*net/textproto.Reader).ReadLine":                "ModelTextprotoReadLine",
 	"(*net/textproto.Reader).ReadDotBytes":            "ModelTextprotoReadDotBytes",
+	"(*net/textproto.Reader).DotReader":               "ModelTextprotoDotReader",
 	"(*net/textproto.Writer).PrintfLine":              "ModelTextprotoPrintfLine",
 	"(*net/textproto.Conn).Close":                     "ModelTextprotoClose",
 	"bufio.NewReader":                                 "ModelBufioNewReader",
